@@ -175,7 +175,7 @@ def finish(ctx, meta, extra=None):
     nf = {}
     for m_ in ctx.repo.modules.values():
         for k_, v_ in getattr(m_, "normal_form", {}).items():
-            nf[k_] = nf.get(k_, 0) + v_
+            nf[k_] = nf.get(k_, 0) + (len(v_) if isinstance(v_, (list, dict)) else v_)
     cov["renames_undone"] = getattr(ctx.repo, "renames", {}) or {}
     cov["normal_form_rewrites"] = nf       # what sa/normalize.py changed before the rules looked (helpers inlined, named conditions/values substituted, ...)
     cov.update(ctx.notes)
